@@ -3,6 +3,8 @@ import Lm.Struct.MapGen
 import Lm.Inv.Map
 import Lm.Inv.MapOps
 import Lm.Inv.MapGen
+import Lm.Inv.MapIter
+import Lm.Inv.MapRun
 /-!
 # C05 — the string-keyed map behaves as a dictionary for all key sets and operation orders
 
@@ -127,4 +129,156 @@ theorem C05_new (P : Params κ) (hP : P.Good) (dup autofree update dtor : Bool) 
   unfold occ at this
   exact List.length_eq_zero_iff.mp this
 
+/-! ## Iteration -/
+
+/-- `m_map_iterate`, with a callback that on every visit either continues or removes the entry it
+was called for (in any pattern): fails with `-EINVAL` on an empty map; otherwise returns 0 and the
+callback was invoked **exactly once for every entry that was live at the start** (no entry twice, none
+skipped — also when a removal back-shifts a cluster that wraps around the end of the table), exactly
+the entries the callback removed are gone, and the destructor / key release ran exactly once for each
+of them and for nothing else. -/
+theorem C05_iterate (P : Params κ) (hP : P.Good) (m : Map κ) (hwf : WF P m)
+    (cb : Nat → κ → Nat → CbAct κ) (hcb : ContRm cb) :
+    let r := iterate P m cb
+    (m.length = 0 ∧ r = (m, [], -22)) ∨
+    (m.length ≠ 0 ∧ r.2.2 = 0 ∧ WF P r.1 ∧ SameFlags m r.1 ∧
+      ((visitsOf r.2.1).map (·.1)).Nodup ∧
+      (∀ e, e ∈ visitsOf r.2.1 ↔ e ∈ content m) ∧
+      (∀ e, e ∈ content r.1 ↔ (e ∈ content m ∧ e.1 ∉ (rmList cb 0 (visitsOf r.2.1)).map (·.1))) ∧
+      outEvs r.2.1 = (rmList cb 0 (visitsOf r.2.1)).flatMap (remEvs m)) := by
+  intro r
+  rcases iterate_spec P hP m hwf cb hcb with h | ⟨h0, h1, h2, h3, _, h5, h6, h7, h8⟩
+  · left; exact h
+  · right
+    simp only [content, ← has_iff_mem]
+    exact ⟨h0, h1, h2, h3, h5, h6, h7, h8⟩
+
+/-- Iteration with the iterator API (`m_map_itr_new` / `_next` / `_get_key` / `_get_data` /
+`_remove`, the loop of `m_itr_foreach`), removing any subset of the visited entries: every entry
+that was live at the start is visited exactly once, exactly the removed ones are gone, each of them
+released exactly once. -/
+theorem C05_iterator (P : Params κ) (hP : P.Good) (m : Map κ) (hwf : WF P m) (dec : Nat → κ → Nat → Bool)
+    (fuel : Nat) (hfuel : 2 * m.size < fuel) :
+    let r := itrWalk P dec fuel m (itrNew m) 0
+    WF P r.1 ∧ SameFlags m r.1 ∧ (r.2.1.map (·.1)).Nodup ∧
+    (∀ e, e ∈ r.2.1 ↔ e ∈ content m) ∧
+    (∀ e, e ∈ content r.1 ↔ (e ∈ content m ∧ e.1 ∉ (rmListB dec 0 r.2.1).map (·.1))) ∧
+    r.2.2 = (rmListB dec 0 r.2.1).flatMap (remEvs m) := by
+  intro r
+  simp only [content, ← has_iff_mem]
+  rcases itrNew_spec P m hwf with ⟨h0, h1⟩ | ⟨h0, it, h1, h2, h3, h4⟩
+  · have hr : r = (m, [], []) := by show itrWalk P dec fuel m (itrNew m) 0 = _; rw [h1, itrWalk_none]
+    rw [hr]
+    have hempty := no_entries_of_length_zero P m hwf h0
+    exact ⟨hwf, SameFlags.refl m, by simp, fun e => by simpa using hempty e, fun e => by simp [rmListB],
+      by simp [rmListB]⟩
+  · have hlt := h2.lt
+    have hlo := h2.scan.lo
+    have hroom := hwf.room
+    have := itrWalk_spec P hP dec fuel m it 0 h2 h3 (by omega)
+    have hr : r = itrWalk P dec fuel m (some it) 0 := by show itrWalk P dec fuel m (itrNew m) 0 = _; rw [h1]
+    rw [hr]
+    exact ⟨this.wf, this.flags, this.nodup, fun e => by rw [this.visits e, h4 e], this.after, this.evs⟩
+
+/-- `m_map_clear` (and with it `m_map_free`) empties the map; every entry that was live is released
+exactly once — its value destroyed once, its key released once when the map owns the keys — and
+nothing else is. -/
+theorem C05_clear (P : Params κ) (hP : P.Good) (m : Map κ) (hwf : WF P m) :
+    let r := clear P m
+    WF P r.1 ∧ SameFlags m r.1 ∧ r.1.size = m.size ∧ r.1.length = 0 ∧ content r.1 = [] ∧
+    ∃ order : List (κ × Nat), r.2 = order.flatMap (remEvs m) ∧ (order.map (·.1)).Nodup ∧
+      ∀ e, e ∈ order ↔ e ∈ content m := by
+  intro r
+  have h := clear_spec P hP m hwf
+  refine ⟨h.wf, h.flags, h.size, h.len, ?_, ?_⟩
+  · have := occ_zero_of_no_entries _ h.empty
+    unfold occ at this
+    exact List.length_eq_zero_iff.mp this
+  · simp only [content, ← has_iff_mem]; exact h.evs
+
+/-- `m_map_itr_set_data` stores the new value in the current entry and nothing else (it is a plain
+store: the old value is handed back to the caller, no destructor runs); it is refused after
+`m_map_itr_remove` and for a `NULL` value. -/
+theorem C05_itr_set (P : Params κ) (m : Map κ) (hwf : WF P m) (it : Itr) (v : Nat) :
+    let r := itrSet m it v
+    WF P r.1 ∧ SameFlags m r.1 ∧ r.1.length = m.length ∧
+    ((it.removed = true ∨ v = 0) → r = (m, -22)) ∧
+    (it.removed = false → v ≠ 0 → ∀ k w, slot m.cells it.pos = some (k, w) →
+      r.2 = 0 ∧ ∀ e, e ∈ content r.1 ↔ e = (k, v) ∨ (e ∈ content m ∧ e.1 ≠ k)) := by
+  intro r
+  obtain ⟨g1, g2, _, g4, _, g6, g7⟩ := itrSet_spec P m hwf it v
+  simp only [content, ← has_iff_mem]
+  exact ⟨g1, g2, g4, g6, g7⟩
+
+/-! ## Every operation sequence -/
+
+/-- Whatever sequence of put / get / contains / remove / len / clear / iterate (with *any* callback
+program: continue, remove the current entry, stop, fail, remove or put another entry) / iterator
+new, next, get, key, set, remove / allocation failures is applied to a new map, for any flags: the
+map is well-formed after every call (so all theorems above apply to every reachable state), and
+the iterator handle of the script, when there is one, is valid for the current table. -/
+theorem C05_wf_reachable (P : Params κ) (hP : P.Good) (dup autofree update dtor : Bool) (ops : List (Op κ)) :
+    let s := run P { map := new P dup autofree update dtor } ops
+    WF P s.map ∧ ∀ it, s.itr = some it → ItrOk P s.map it := by
+  intro s
+  exact run_ok P hP ops _ ⟨WF_new P hP _ _ _ _, fun it h => by cases h⟩
+
+/-- The same for the model exactly as the driver runs it: with the fragments regenerated from
+`map.c`, for every key-to-bytes function (every key set). -/
+theorem C05_wf_reachable_generated (bytes : κ → List (BitVec 8)) (dup autofree update dtor : Bool)
+    (ops : List (Op κ)) :
+    WF (genParams bytes) (run (genParams bytes) { map := new (genParams bytes) dup autofree update dtor } ops).map :=
+  (C05_wf_reachable (genParams bytes) (genParams_good bytes) dup autofree update dtor ops).1
+
+/-! ## Non-vacuity: a small instance with colliding keys and a cluster wrapping the table end -/
+
+/-- table of 8 slots, identity hash -/
+def demoP : Params Nat where
+  home n k := k % n
+  probeLen n := n / 2
+  minSize len := len + len / 3
+  shift n hole idx home := decide ((idx + n - hole) % n ≤ (idx + n - home) % n)
+  sizeDefault := 8
+  maxSize := 64
+
+theorem demoP_good : demoP.Good := by
+  constructor
+  · intro n k h0 _; exact Nat.mod_lt _ h0
+  · intro n _; rfl
+  · intro n len h1 _ _ h4
+    simp only [demoP] at h1 h4
+    omega
+  · intro n hole idx home _ _ _ _ _; rfl
+  · exact ⟨3, rfl⟩
+  · decide
+  · decide
+
+/-- keys 7, 15, 23 all home on the last slot (cluster 7, 0, 1); 0 homes on slot 0 and is pushed to 2 -/
+def demoOps : List (Op Nat) := [.put 7 1, .put 15 2, .put 23 3, .put 0 4, .del 7, .put 15 5]
+
+def demoSt : St Nat := run demoP { map := new demoP true true true true } demoOps
+
+example : demoSt.map.cells = [some (23, 3), some (0, 4), none, none, none, none, none, some (15, 5)] := by decide
+example : (get demoP demoSt.map 15, get demoP demoSt.map 23, get demoP demoSt.map 0, get demoP demoSt.map 7) =
+    (some 5, some 3, some 4, none) := by decide
+example : demoSt.log = [.kalloc 7, .kalloc 15, .kalloc 23, .kalloc 0, .kfree 7, .dtor 1,
+    .kalloc 15, .dtor 2, .kfree 15] := by decide
+/-- iteration with removal of the first visited entry (the head of the wrapped cluster): 3 visits, each entry once -/
+example : visitsOf (iterate demoP demoSt.map (fun i _ _ => if i = 0 then .rm else .cont)).2.1 =
+    [(15, 5), (23, 3), (0, 4)] := by decide
+example : ContRm (fun (i : Nat) (_ : Nat) (_ : Nat) => if i = 0 then CbAct.rm else CbAct.cont) := by
+  intro i k v; by_cases h : i = 0 <;> simp [h]
+/-- D-05b shape at size 8: keys at homes 0..4 each at home, remove the home-0 key: the key with home 4
+(distance exactly size/2) must stay where it is -/
+example : (remove demoP (run demoP { map := new demoP false false false false }
+    [.put 8 1, .put 1 2, .put 2 3, .put 3 4, .put 4 5]).map 8).1.cells =
+    [none, some (1, 2), some (2, 3), some (3, 4), some (4, 5), none, none, none] := by decide
+/-- growth: the seventh key doubles the table (8 <= 6 + 2) and every entry is still found -/
+example : let m := (run demoP { map := new demoP false false false false }
+      [.put 7 1, .put 15 2, .put 23 3, .put 31 4, .put 6 5, .put 14 6, .put 22 7]).map
+    (m.size, m.length, get demoP m 31, get demoP m 22, get demoP m 7) = (16, 7, some 4, some 7, some 1) := by decide
+/-- clear releases every entry once -/
+example : (clear demoP demoSt.map).2 = [.kfree 15, .dtor 5, .kfree 23, .dtor 3, .kfree 0, .dtor 4] := by decide
+
 end Lm.Props.C05
+
